@@ -1237,6 +1237,19 @@ def nest_alone_lines(line):
     return res
 
 # ---------------------------------------------------------------------------------- running
+def syclop_fvs(ck, planner, rng, quick):
+    """Syclop's setup estimates the free volume of every region from 100000 validity-checked samples (≈0.15 s CPU per run under
+    ASan, 60 % of the quick tier's planner-run CPU in round 10).  Quick tier: three of four Syclop runs use 2000 samples
+    (`Syclop::setNumFreeVolumeSamples`, a public parameter; the estimate only weights region selection), the others and the
+    whole thorough tier the default."""
+    if not planner.startswith("Syclop") or not quick or rng.chance(1, 4):
+        if planner.startswith("Syclop"):
+            ck.count("syclop-free-volume-samples:default(100000)")
+        return []
+    ck.count("syclop-free-volume-samples:2000")
+    return ["fvs=2000"]
+
+
 def run_one(ck, hbin, line, env=None):
     out, rc, err = ck.run_bin(hbin, ["control", line], timeout=900, env=env)
     return out or [], rc, err
@@ -1530,7 +1543,7 @@ def run(ck):
                         k = 1
                         ck.count("steered-control-sampler-runs:%s" % planner)
                     line = " ".join(["plan", planner] + pb.toks() + ["k=%d" % k, "steer=%d" % steer, "bias=" + B(bias), "seed=%d" % seed,
-                                                                     "budget=%d" % budget])
+                                                                     "budget=%d" % budget] + syclop_fvs(ck, planner, r, quick))
                     ck.count("directed-control-samples:k=%d" % k)
                     jobs.append((planner, pb, seed, budget, line))
     records = []
@@ -1721,14 +1734,14 @@ def run(ck):
                                  ["solve", "0", "solve", str(b), "solve", str(c)],
                                  ["solve", str(a), "solve", "0", "clear", "solve", str(b), "solve", str(c)]])
                 line = " ".join(["hist", planner] + pb.toks() + ["k=%d" % rh.choice([1, 2, 3]), "bias=" + B(rh.choice([0.05, 0.0, 1.0])),
-                                                                 "seed=%d" % rh.below(100000), "ops"] + ops)
+                                                                 "seed=%d" % rh.below(100000)] + syclop_fvs(ck, planner, rh, quick) + ["ops"] + ops)
                 hjobs.append((planner, pb, line, "clear" in ops))
         # a goal with an extra condition beyond its distance (speed-limited arrival of the double integrator): solve until an
         # exact solution exists, the caller clears only the problem definition's paths, solve again (regression for F160, fixed by fc68fdba5)
         for rep in range(1 if quick else 6):      # regression for the fixed F160; depth lives in the thorough tier
             pb = std_problem("dint", rh.choice([0, 2, 5]), "empty", "posv")
             pb.thr = 2.0
-            line = " ".join(["hist", planner] + pb.toks() + ["k=1", "bias=" + B(0.05), "seed=%d" % rh.below(100000), "ops", "solve", "4000",
+            line = " ".join(["hist", planner] + pb.toks() + ["k=1", "bias=" + B(0.05), "seed=%d" % rh.below(100000)] + syclop_fvs(ck, planner, rh, quick) + ["ops", "solve", "4000",
                                                              "clearsol", "solve", str(rh.choice([300, 1500]))])
             hjobs.append((planner, pb, line, False))
     # reconfiguration histories: every planner x both control-space kinds; between the solves the control bounds
@@ -1746,7 +1759,7 @@ def run(ck):
                 ops, tags = gen_reconf_ops(rr2, pb.sy, rr2.choice([1, 2, 2]), steer=bool(steer), resetup=not planner.startswith("Syclop"))
                 extra = (["steer=1"] if steer else []) + (["nest=%d" % rr2.choice([1, 3, 7])] if rr2.chance(1, 3) else [])
                 line = " ".join(["hist", planner] + pb.toks() + ["k=%d" % (1 if steer else rr2.choice([1, 2, 3])), "bias=" + B(rr2.choice([0.05, 0.0, 0.3])),
-                                                                 "seed=%d" % rr2.below(100000)] + extra + ["ops"] + ops)
+                                                                 "seed=%d" % rr2.below(100000)] + extra + syclop_fvs(ck, planner, rr2, quick) + ["ops"] + ops)
                 for tg in tags:
                     ck.count("reconfiguration:" + tg)
                 ck.count("reconfiguration:control-space:%s" % ("discrete" if kind == "dpoint" else "real-vector"))
@@ -1991,7 +2004,7 @@ MANIFEST = {
             "valid start and an exact status implies the goal. The models are tied to the code by bit-exact lock-step runs (propagation "
             "core on scripted validity predicates; control RRT, SST, EST, KPIECE1 and PDST re-run on the draws recorded from the real planners, comparing the "
             "whole tree, costs, witnesses, grid cells, PDF weights, scores, importances, BSP cells and the priority-queue layout). SyclopRRT and SyclopEST have no model, "
-            "and SteeredControlSampler, the ODESolver-based propagator and PathControl's print/copy/random methods are oracle-only: their reported paths are checked by trace conformance "
+            "and the ODESolver-based propagator and PathControl's print/copy/random methods are oracle-only (SteeredControlSampler is in the sampler machine of Model/ControlReconf.lean since round 10): their reported paths are checked by trace conformance "
             "only — every explored run (4 systems incl. a non-additive car, 3 goal kinds incl. a plain predicate goal, box environments, seeds, evaluation budgets, k in {1,2,3,5} directed control samples) is re-propagated by an independent "
             "oracle and by the Lean spec replayOK; they are covered on the explored runs and nowhere else.",
     "text_round10": "Round 10: control samplers under reconfiguration are inside the model (Model/ControlReconf.lean: a sampler object as a state machine over "
